@@ -262,4 +262,70 @@ LawUncheckedEdge(P, C)  == \A v \in UncheckedVias : EdgeVerdict(P, C, v) = "yes"
 LawReduceWraps(P, C)    == (~HasNoAnn(P) /\ ~HasNoAnn(C) /\ Strip(P).k # "array") =>
                                /\ EdgeVerdict(P, ArrayOf(C), "reduce") = EdgeVerdict(P, C, "emap")
                                /\ EdgeVerdict(P, C, "direct") = EdgeVerdict(P, C, "emap")
+
+---------------------------------------------------------------------------
+(* 6. HOW AN EDGE ARISES FROM TWO FUNCTIONS.                                                        *)
+(*                                                                                                 *)
+(* 6a. The `via` of an edge follows from the MapSpecs the USER WROTE on the two functions           *)
+(* (validate_consistent_type_annotations: _mapspec_is_generated, _mapspec_with_internal_shape,      *)
+(* _axis_is_reduced).  A MapSpec is [has, ins, outs]; an array is [n |-> name, ax |-> <<indices>>]  *)
+(* with ":" for an axis taken whole.                                                                *)
+NoMS          == [has |-> FALSE, ins |-> <<>>, outs |-> <<>>]
+MS(ins, outs) == [has |-> TRUE, ins |-> ins, outs |-> outs]
+Arr(n, ax)    == [n |-> n, ax |-> ax]
+ArrNames(s)   == {s[i].n : i \in DOMAIN s}
+AxesOf(s, n)  == LET i == CHOOSE j \in DOMAIN s : s[j].n = n IN {s[i].ax[j] : j \in DOMAIN s[i].ax}
+InputIndices(ms) == UNION {AxesOf(ms.ins, n) : n \in ArrNames(ms.ins)} \ {":"}
+
+(* `name` is an output of the producer (MapSpec pms) and a parameter of the consumer (MapSpec cms). *)
+ViaOf(pms, cms, name) ==
+    LET mappedOut == pms.has /\ name \in ArrNames(pms.outs)
+        mappedIn  == cms.has /\ name \in ArrNames(cms.ins)
+    IN
+    \* the producer has no MapSpec but the consumer maps over its output: the pipeline GENERATES `... -> name[i]`
+    IF ~pms.has /\ mappedIn THEN "generated"
+    \* the output has an index that no input of the producer has: an internal shape
+    ELSE IF mappedOut /\ ~(AxesOf(pms.outs, name) \subseteq InputIndices(pms)) THEN "internal"
+    \* a mapped output that the consumer does not index at all -- whether or not the consumer has a MapSpec of
+    \* its own over OTHER parameters -- is received whole: an object array
+    ELSE IF mappedOut /\ ~mappedIn THEN "reduce"
+    ELSE IF mappedOut /\ ":" \in AxesOf(cms.ins, name) THEN "preduce"
+    ELSE IF mappedOut THEN "emap"
+    ELSE "direct"
+
+(* 6b. Output names.  A function declares its outputs <<o1, .., on>> and returns tuple[T1, .., Tn]; its     *)
+(* names are then renamed by a sequence of steps (renames= at construction, update_renames,                *)
+(* update_scope), each a set of <<current name, new name>> pairs applied simultaneously.  The annotation   *)
+(* of an output belongs to its POSITION: it follows the name through every renaming.                       *)
+RenameOne(step, n) == IF \E r \in step : r[1] = n THEN (CHOOSE r \in step : r[1] = n)[2] ELSE n
+RECURSIVE RenameAll(_, _)
+RenameAll(steps, n) == IF steps = <<>> THEN n ELSE RenameAll(Tail(steps), RenameOne(Head(steps), n))
+(* prod = [outs |-> <<declared names>>, anns |-> <<annotations>>, steps |-> <<rename steps>>, ms |-> MapSpec] *)
+CurrentOutputs(prod)  == [i \in DOMAIN prod.outs |-> RenameAll(prod.steps, prod.outs[i])]
+OutputAnn(prod, name) == prod.anns[CHOOSE i \in DOMAIN prod.outs : CurrentOutputs(prod)[i] = name]
+(* cons = [params |-> <<[n |-> current parameter name, t |-> annotation]>>, ms |-> MapSpec (in current names)] *)
+(* The edges between a producer and a consumer: one per parameter that names a current output.             *)
+NamedEdges(prod, cons) ==
+    LET cur  == CurrentOutputs(prod)
+        hit  == {i \in DOMAIN cons.params : \E j \in DOMAIN cur : cur[j] = cons.params[i].n}
+        pms  == [prod.ms EXCEPT !.outs = [i \in DOMAIN prod.ms.outs |->
+                                            Arr(RenameAll(prod.steps, prod.ms.outs[i].n), prod.ms.outs[i].ax)]]
+        edge(i) == [p |-> OutputAnn(prod, cons.params[i].n), c |-> cons.params[i].t,
+                    via |-> ViaOf(pms, cons.ms, cons.params[i].n)]
+    IN  {edge(i) : i \in hit}
+ConstructNamed(prod, cons, validate) ==
+    LET es == NamedEdges(prod, cons)
+        vs == {EdgeVerdict(e.p, e.c, e.via) : e \in es} IN
+    IF ~validate THEN "accept" ELSE IF "no" \in vs THEN "TypeError" ELSE IF "either" \in vs THEN "either" ELSE "accept"
+
+(* laws: renaming moves names, never annotations; a renaming that is undone changes nothing *)
+LawRenameKeepsPositions(prod) ==
+    LET cur == CurrentOutputs(prod) IN
+    (\A i, j \in DOMAIN cur : i # j => cur[i] # cur[j]) => \A i \in DOMAIN cur : OutputAnn(prod, cur[i]) = prod.anns[i]
+LawRenameInverse(prod, step) ==
+    LET inv  == {<<r[2], r[1]>> : r \in step}
+        back == [prod EXCEPT !.steps = prod.steps \o <<step, inv>>] IN
+    (\A r1, r2 \in step : (r1[2] = r2[2]) => r1 = r2)
+       /\ (\A r \in step : \A i \in DOMAIN prod.outs : CurrentOutputs(prod)[i] = r[2] => \E q \in step : q[1] = r[2])
+       => CurrentOutputs(back) = CurrentOutputs(prod)
 =============================================================================
